@@ -68,7 +68,10 @@ def cmp_scalar(t, v, j, pf, path):
         if j is not bool(v): raise Diff('%s: bool %r printed as %r' % (path, v, j))
     elif t in U.INT_RANGES:
         if isinstance(j, bool) or not isinstance(j, int) or j != v: raise Diff('%s: %r printed as %r' % (path, v, j))
-    elif t in ('float', 'double'):
+    elif t == 'float':
+        # the printer emits the shortest text that reads back as the same FLOAT: compare as float32
+        if isinstance(j, bool) or not isinstance(j, (int, float)) or U.f32(float(j)) != U.f32(float(v)): raise Diff('%s: float %r printed as %r' % (path, v, j))
+    elif t == 'double':
         if isinstance(j, bool) or not isinstance(j, (int, float)) or float(j) != float(v): raise Diff('%s: %r printed as %r' % (path, v, j))
     else:
         if (pf & PF_NOENUM) and not isinstance(j, int): raise Diff('%s: noenum but printed %r' % (path, j))
@@ -174,6 +177,9 @@ def run(ctx):
         ctx.broken_obligation('Properties_C05.vo', getattr(ctx, 'broken', {}))
     if bad_cfg:
         ctx.broken_obligation('scanner-configuration', 'json_parser configuration differs from the one Json/Scanner.v transcribes: %r' % bad_cfg)
+    if not ctx.check_theorems(prop_module='Properties_C05b', extra_targets=['Extract/Extract_jsonprint.vo']): ctx.broken_obligation('Properties_C05b.vo', getattr(ctx, 'broken', {}))
+    from . import c05b_util; done = c05b_util.c05b_hook(ctx)      # document layer (Json/PrinterText.v, Json/RoundTripProofs.v); True = it replayed one of its own records
+    if done is True: return
     gdir = U.gen_schema(ctx)
     H = U.build_harness(ctx, 'json_rt.c', 'json_rt', gdir, rt=('builder.c', 'emitter.c', 'refmap.c', 'verifier.c', 'json_parser.c'))
 
@@ -359,7 +365,7 @@ def run(ctx):
     allpf = [x for x in range(16) if (x & 12) != 12]      # skip_default together with force_default is contradictory
     ndoc = 400 if T else 90
     for k in range(ndoc):
-        root = rng.choice(['Root'] * 6 + ['Leaf', 'Other', 'Sub', 'Rec', 'Pt', 'Fix', 'Fix', 'Nums', 'Nums'])
+        root = rng.choice(['Root'] * 6 + ['Leaf', 'Other', 'Sub', 'Rec', 'Pt', 'Fix', 'Fix', 'Nums', 'Nums', 'Node'])
         utf8 = (k % 3 != 0)
         v, text = make(root, utf8, rng.choice([1, 2, 3]))
         pfs = allpf if k < (12 if T else 4) else [0, 1, 2, 4, 8] + rng.sample(allpf, 2)
@@ -406,6 +412,34 @@ def run(ctx):
                 text = U.render_root(root, v, st)
                 for pf in (0, 2, 1):
                     cases.append(('int-limits', root, v, text, pf, 0, True))
+    # doubles and floats of small magnitude with many significant digits (1e-22 .. 1e-1, 2..17 digit mantissas: the printer's shortest form is
+    # scientific with a negative exponent), as table field, vector element and struct member; compared bit exact through the dump
+    for nd in (2, 5, 8, 9, 12, 15, 16, 17):
+        vals = []
+        for e in range(1, 23):
+            m = rng.randint(10 ** (nd - 1), 10 ** nd - 1)
+            vals.append(float('%de%d' % (m, -(nd - 1) - e)))
+        vals += [1.25e-21, 1.2345678e-16, -9.87654321e-15, 3.0000000000000004e-5, 1e-22, 9.999999999999999e-23]
+        for k in range(0, len(vals), 7):
+            ch = vals[k:k + 7]
+            v = {'d': ch[0], 'f': U.f32(ch[-1]), 'vd': ch, 'vf': [U.f32(x) for x in ch]}
+            cases.append(('small-floats', 'Nums', v, U.render_root('Nums', v, U.Style(rng, strict=True)), rng.choice([0, 2]), 0, True))
+            v = {'f64': ch[1 % len(ch)], 'f32': U.f32(ch[0]), 'fix': {'a': [1, 2, 3], 'name': b'ab\0\0\0\0', 'p': [{'x': 1, 'y': 2}, {'x': 3, 'y': 4}], 'e': [1, 2], 'd': ch[-1], 'u': 1},
+                 'other': {'f': U.f32(ch[0])}}
+            cases.append(('small-floats', 'Root', v, U.render_root('Root', v, U.Style(rng, strict=True)), 0, rng.choice([0, 2]), True))
+    # chains of nested tables that the verifier accepts must print: depth classes per edge kind (single union field, union vector, table
+    # field, table vector); documents the parser itself refuses (nesting limit) are not part of this class
+    def chain(kind, d):
+        if kind == 'union-field': return 'Node', b'{"single_type":"Node","single":' * d + b'{"n":1}' + b'}' * d
+        if kind == 'union-vector': return 'Node', b'{"kids_type":["Node"],"kids":[' * d + b'{"n":1}' + b']}' * d
+        if kind == 'table-field': return 'Rec', b'{"r":' * d + b'{"n":1}' + b'}' * d
+        if kind == 'table-vector': return 'Rec', b'{"k":[' * d + b'{"n":1}' + b']}' * d
+        return 'Root', b'{"rec":' + b'{"r":' * d + b'{"n":1}' + b'}' * d + b',"any_type":"Leaf","any":{"n":2}}'
+    for kind in ('union-field', 'union-vector', 'table-field', 'table-vector', 'root-table-field'):
+        for d in (1, 10, 24, 25, 26, 33, 48, 49, 50, 51, 52, 60, 75, 97, 98, 99, 100):
+            root, text = chain(kind, d)
+            for pf, indent in ((0, 0), (1, 2)):
+                cases.append(('deep-chain:' + kind, root, None, text, pf, indent, True))
     # a bit_flags enum that defines every bit of its base type: value 0 (no flag), all bits, in a field and in a vector
     for body, v in ((b'{"full":0}', {'full': 0}), (b'{"full":255}', {'full': 255}), (b'{"vfull":[0,1,255,0]}', {'vfull': [0, 1, 255, 0]}), (b'{"vfull":[0]}', {'vfull': [0]}),
                     (b'{"full":128,"vfull":[3,0,0]}', {'full': 128, 'vfull': [3, 0, 0]}), (b'{}', {})):
@@ -443,6 +477,9 @@ def run(ctx):
         if asan:
             m = re.search(r'@(\S+)', asan)
             ctx.violation('rt-asan:' + (m.group(1) if m else '?'), 'sanitizer report during print/parse round trip (printer flags %d, indent %d): %s' % (pf, indent, asan[:200]), replay); continue
+        if (p0 != 0 or v0 != 0) and klass.startswith('deep-chain'):
+            stat['deep_refused'] = stat.get('deep_refused', 0) + 1; continue      # beyond the parser's / verifier's nesting limit: nothing to print
+        if klass.startswith('deep-chain'): stat['deep_printed'] = stat.get('deep_printed', 0) + 1
         if p0 != 0 or v0 != 0:
             stat['src_rejected'] += 1
             # The source is rendered from a value tree: integers and enum symbols are spelled exactly as the printer spells them, so a parser that
@@ -453,6 +490,9 @@ def run(ctx):
         stat['rt'] += 1
         t1 = bytes.fromhex(f[8]) if f[8] != '-' else b''
         replay['printed'] = t1[:3000].decode('latin1')
+        if prc < 0 and klass.startswith('deep-chain'):
+            ctx.violation('print-error:verified-depth', 'the parser built and the verifier accepted a buffer nested through %s, but the printer fails with %d (deep recursion is error 2): the printer must '
+                          'print every buffer the verifier accepts' % (klass.split(':', 1)[1], prc), replay); continue
         if prc < 0:
             ctx.violation('print-error', 'printer failed with %d on a verified buffer (flags %d, indent %d)' % (prc, pf, indent), replay); continue
         if (p1 != 0 or deq != 1) and full_zero(root, v, pf, t1):
@@ -484,6 +524,7 @@ def run(ctx):
                     ctx.violation('printed-value-differs', 'printed JSON does not carry the value tree the buffer was built from: %s' % e, replay)
     for ub, l in sorted(ub_seen.items()):
         ctx.notes.append('undefined behaviour (UBSan, not counted): %s first seen on `%s`' % (ub, l))
+    ctx.notes.append('deep chains: %d accepted by parser+verifier and printed, %d refused at the source' % (stat.get('deep_printed', 0), stat.get('deep_refused', 0)))
     ctx.notes.append('round trips: %d completed, %d source documents not accepted by the parser, %d strict outputs read back by python json.loads and compared with the value tree' % (
         stat['rt'], stat['src_rejected'], stat['strict_checked']))
     if stat['rt'] * 10 < len(cases) * 8:
